@@ -58,16 +58,16 @@ func init() {
 // scenarios and recording
 
 type c12Scn struct {
-	name   string
-	cfg    e2eCfg
-	kind   string // file | big | two | resume | archive | dirv3 | empty
-	quick  bool   // part of the quick tier
-	mustOnly bool // quick tier: only the must-have mutants of this scenario
-	root   string
-	tops   []string
-	wire   [2][]byte
-	okRec  bool
-	recErr string
+	name     string
+	cfg      e2eCfg
+	kind     string // file | big | two | resume | archive | dirv3 | empty
+	quick    bool   // part of the quick tier
+	mustOnly bool   // quick tier: only the must-have mutants of this scenario
+	root     string
+	tops     []string
+	wire     [2][]byte
+	okRec    bool
+	recErr   string
 }
 
 func c12Content(n int, seed int64, compressible bool) []byte {
@@ -789,6 +789,15 @@ type c12Job struct {
 	TimeoutS int      `json:"timeout_s"`
 	WirePath string   `json:"wire_path"`
 	ASLimit  uint64   `json:"as_limit"`
+	// role "handshake": a complete transfer between the real client (in this child) and the real
+	// server with one member of one handshake line replaced on the wire
+	Binary     bool   `json:"binary"`
+	Proto      int    `json:"proto"`
+	Compress   string `json:"compress"`
+	Quiet      bool   `json:"quiet"`
+	RewriteTyp string `json:"rewrite_typ"` // CFG (server -> client) or ACT (client -> server)
+	RewriteKey string `json:"rewrite_key"`
+	RewriteRaw string `json:"rewrite_raw"` // JSON text of the new value
 }
 
 func c12SelfHWM() int64 {
@@ -817,6 +826,8 @@ func c12Child(jobPath string) {
 	t0 := time.Now()
 	if job.Role == "server" {
 		res = c12ChildServer(&job, wire)
+	} else if job.Role == "handshake" {
+		res = c12ChildHandshake(&job)
 	} else {
 		res = c12ChildClient(&job, wire)
 	}
